@@ -26,7 +26,7 @@ def release_sites(ctx):
     for b in fb.prod_bodies():
         for bb, t in b.calls():
             p = callee_path(t)
-            if p not in (TAKE, "std::mem::drop", "std::mem::take", "std::mem::replace"):
+            if p not in (TAKE, "std::mem::drop", "std::mem::take", "std::mem::replace") or b.blocks[bb].get("cleanup"):
                 continue
             a0 = t["args"][0]
             if a0["k"] == "const":
@@ -41,7 +41,7 @@ def release_sites(ctx):
             out.append({"body": b, "bb": bb, "t": t, "roles": roles, "kind": kind, "detail": detail, "params": params})
         # release by assignment: `holder = None`
         for bb, si, s_ in b.stmts():
-            if s_["k"] != "assign":
+            if s_["k"] != "assign" or b.blocks[bb].get("cleanup"):
                 continue
             rv_ = s_["rv"]
             if rv_["k"] == "use" and rv_["op"]["k"] in ("move", "copy") and not rv_["op"]["pl"]["p"]:
@@ -68,6 +68,26 @@ def release_sites(ctx):
     out.extend(lifted)
     m._release_sites = out
     return out
+
+
+def field_decremented_elsewhere(ctx, adt_ty, field_idx):
+    """some production body writes `x - 1` to field `field_idx` of a value of type `adt_ty` reached through a pointer or a local"""
+    from analysis import expr_rvalue
+    for bx in ctx.fb.prod_bodies():
+        for bb, si, st in bx.stmts():
+            if st["k"] != "assign":
+                continue
+            pr = st["pl"]["p"]
+            fs = [x for x in pr if isinstance(x, dict) and "f" in x]
+            if len(fs) != 1 or fs[0]["f"] != field_idx or pr[-1] is not fs[0]:
+                continue
+            lty = bx.locals[st["pl"]["l"]]["s"].lstrip("&").replace("mut ", "").strip()
+            if lty != adt_ty:
+                continue
+            v = expr_rvalue(bx, st["rv"], 0, (bb, si))
+            if v.kind == "binop" and v[1] == "Sub" and is_const(v[3], 1):
+                return True
+    return False
 
 
 def classify_value_as_guard(ctx, b, e, taken_true):
@@ -99,6 +119,13 @@ def classify_value_as_guard(ctx, b, e, taken_true):
                     ps = fl.sources_local(b, st_["pl"]["l"], (), "taint")
                     if ncs & set(ps):
                         has_sub = True
+        if has_nc and not has_sub and xs.kind == "field":
+            # a counter kept in a field of a private struct and decremented by another method of that struct
+            base = strip_refs(xs[1])
+            if base.kind in ("arg", "local"):
+                bty = b.locals[base[1]]["s"].lstrip("&").replace("mut ", "").strip()
+                if field_decremented_elsewhere(ctx, bty, xs[2]):
+                    has_sub = True
         if not has_nc:
             return ("OTHER", "%s 0 test of %s" % ("==" if is_zero_branch else "!=", fmt_expr(xs, b)))
         if not is_zero_branch:
@@ -444,6 +471,38 @@ def T1_try_fold_failed(ctx, rule, e, where):
 # ---------------------------------------------------------------------------
 # T2
 
+JOIN_FNS = ("futures::future::join", "futures::future::join3", "tokio::join", "futures::future::try_join")
+
+
+def join_sites(ctx, b):
+    """Places where two futures are driven together and awaited in body b:
+    `futures::join!(a, b)` (two maybe_done wrappers polled by one poll_fn) or
+    `futures::future::join(a, b).await`.  Returns [{"ops": [operand, ..],
+    "ready_bb": Ready arm of the await}]."""
+    out = []
+    mds = [(bb, t) for bb, t in b.calls() if callee_path(t) == "futures::future::maybe_done"
+           and "join" in (t["sp"].get("macro") or "")]
+    aws = awaits(b)
+    if len(mds) >= 2:
+        ready = None
+        for a in aws:
+            if a.operand["k"] == "const":
+                continue
+            d = get_defs(b).unique_full(a.operand["pl"]["l"])
+            if d and d[0] == "call" and callee_path(d[3]) in ("futures::future::poll_fn", "std::future::poll_fn") and \
+                    "join" in str(d[3]["sp"].get("macro", "")):
+                ready = a.ready_bb
+        out.append({"ops": [t["args"][0] for bb, t in mds], "ready_bb": ready, "bb": mds[0][0]})
+    for bb, t in b.calls():
+        if callee_path(t) in JOIN_FNS and len(t["args"]) >= 2:
+            ready = None
+            for a in aws:
+                if a.operand["k"] != "const" and a.operand["pl"]["l"] == t["dest"]["l"]:
+                    ready = a.ready_bb
+            out.append({"ops": list(t["args"]), "ready_bb": ready, "bb": bb})
+    return out
+
+
 def T2(ctx, rule="T2"):
     """every internal path joins the queuer future with the scheduler block"""
     m, fb, fl = ctx.model, ctx.fb, ctx.model.flow
@@ -462,12 +521,11 @@ def T2(ctx, rule="T2"):
         joined = []
         for bid in sorted(reach):
             b = fb.bodies[bid]
-            mds = [(bb, t) for bb, t in b.calls() if callee_path(t) == "futures::future::maybe_done"
-                   and "join" in (t["sp"].get("macro") or "")]
-            if len(mds) >= 2:
-                joined.append((b, mds))
+            for js in join_sites(ctx, b):
+                if js["ready_bb"] is not None:
+                    joined.append((b, [(js["bb"], {"args": [o]}) for o in js["ops"]]))
         ok = False
-        why = "no `join!` of two futures found"
+        why = "no awaited join of two futures (`join!` / `future::join`) found"
         for b, mds in joined:
             has_queuer = has_sched = False
             for bb, t in mds:
